@@ -10,6 +10,7 @@ mod c06;
 mod tables;
 mod c08;
 mod c09;
+mod c10;
 mod c08_blocks;
 mod c11;
 mod corpus;
@@ -40,6 +41,7 @@ fn main() {
         | "c06" => c06::run(&opts),
         | "c08" => c08::run(&opts),
         | "c09" => c09::run(&opts),
+        | "c10" => c10::run(&opts),
         | "c11" => c11::run(&opts),
         | other => {
             eprintln!("unknown property {other}");
